@@ -115,6 +115,26 @@ var Controls = []Control{
 	{"C19", "hints emitted before descending", "hintdetail/hintdetail.go", `func getAllHintsInternal\(err error, hints \[\]string, seen map\[string\]struct\{\}\) \[\]string \{\n\tif c := errbase\.UnwrapOnce\(err\); c != nil \{\n\t\thints = getAllHintsInternal\(c, hints, seen\)\n\t\}\n(.*?)\treturn hints\n\}`, "func getAllHintsInternal(err error, hints []string, seen map[string]struct{}) []string {\n$1\tif c := errbase.UnwrapOnce(err); c != nil {\n\t\thints = getAllHintsInternal(c, hints, seen)\n\t}\n\treturn hints\n}", "R-ORDER"},
 	// C20
 	{"C20", "a part of the error is encoded", "grpc/middleware/server.go", `enc := errors\.EncodeError\(ctx, err\)`, `enc := errors.EncodeError(ctx, errors.UnwrapAll(err))`, "R-GRPC-FLOW"},
+	// round 4
+	{"C04", "opaque message type altered on the way in", "errbase/decode.go", `\t\tmessageType: MessageType\(enc\.MessageType\),\n`, "\t\tmessageType: MessageType(enc.MessageType) & 1,\n", "R-OPAQUE-TRANSPORT"},
+	{"C04", "prefix sent with its redaction markers", "errutil/redactable.go", `return l\.prefix\.StripMarkers\(\), l\.SafeDetails\(\), &errorspb\.StringPayload\{Msg: string\(l\.prefix\)\}`, `return string(l.prefix), l.SafeDetails(), &errorspb.StringPayload{Msg: string(l.prefix)}`, "R-WIRE-MSG"},
+	{"C06", "single-line fast path skips escaping", "errbase/format_error.go", `// This means entry\.head is unsafe\. We need to escape it\.\n\t\t\ts\.finalBuf\.Write\(\[\]byte\(redact\.EscapeBytes\(entry\.head\)\)\)`, "// This means entry.head is unsafe. We need to escape it.\n\t\t\tif bytes.IndexByte(entry.head, '\\n') < 0 {\n\t\t\t\ts.finalBuf.Write(entry.head)\n\t\t\t} else {\n\t\t\t\ts.finalBuf.Write([]byte(redact.EscapeBytes(entry.head)))\n\t\t\t}", "R-ESC"},
+	{"C06", "unsafe head trimmed before escaping", "errbase/format_error.go", `// This means entry\.head is unsafe\. We need to escape it\.\n\t\t\ts\.finalBuf\.Write\(\[\]byte\(redact\.EscapeBytes\(entry\.head\)\)\)`, "// This means entry.head is unsafe. We need to escape it.\n\t\t\ts.finalBuf.Write([]byte(redact.EscapeBytes(bytes.TrimRight(entry.head, \" \"))))", "R-ESC"},
+	{"C13", "one-error fast path without a join node", "errutil/utilities.go", `func JoinWithDepth\(depth int, errs \.\.\.error\) error \{\n`, "func JoinWithDepth(depth int, errs ...error) error {\n\tif len(errs) == 1 && errs[0] != nil {\n\t\treturn withstack.WithStackDepth(errs[0], depth+1)\n\t}\n", "R-JOIN-NODE"},
+	{"C13", "join node built through a local", "errutil/utilities.go", `\treturn withstack\.WithStackDepth\(join\.Join\(errs\.\.\.\), depth\+1\)\n`, "\tjoined := join.Join(errs...)\n\treturn withstack.WithStackDepth(joined, depth+1)\n", CleanVariant},
+	{"C11", "printed stack truncated", "withstack/withstack.go", `fmt\.Sprintf\("%\+v", w\.StackTrace\(\)\)`, `fmt.Sprintf("%+v", w.StackTrace()[:1])`, "R-STACK-WHOLE"},
+	{"C11", "safe details truncated on the generic path", "errbase/encode.go", `details\.ReportablePayload = s\.SafeDetails\(\)(.*?)details\.ReportablePayload = s\.SafeDetails\(\)`, "details.ReportablePayload = s.SafeDetails()[:0]${1}details.ReportablePayload = s.SafeDetails()", "R-GENERIC-PATH"},
+	{"C11", "no decoder for the forwarded errno", "errbase/adapters.go", `\tRegisterLeafDecoder\(GetTypeKey\(&OpaqueErrno\{\}\), decodeOpaqueErrno\)\n`, "", "R-PAYLOAD-DECODER"},
+	{"C12", "issue link skipped when it has no URL", "issuelink/issuelink.go", `\treturn &withIssueLink\{cause: err, IssueLink: issue\}`, "\tif issue.IssueURL == \"\" {\n\t\treturn err\n\t}\n\treturn &withIssueLink{cause: err, IssueLink: issue}", "R-ALWAYS-WRAPS"},
+	{"C15", "path cut only for a positive index", "report/report.go", `if i := strings\.LastIndexByte\(tn, '/'\); i >= 0 \{`, `if i := strings.LastIndexByte(tn, '/'); i > 0 {`, "R-INDEX-FOUND"},
+	{"C15", "found test spelled != -1", "report/report.go", `if i := strings\.LastIndexByte\(tn, '/'\); i >= 0 \{`, `if i := strings.LastIndexByte(tn, '/'); i != -1 {`, CleanVariant},
+	{"C17", "previous type name not written down", "errbase/oserror_go116.go", `func registerOsPathErrorMigration\(\) \{\n(.*?)RegisterTypeMigration\("os", "\*os\.PathError", &fs\.PathError\{\}\)`, "var prevPathErrName = \"*os.PathError\"\n\nfunc registerOsPathErrorMigration() {\n${1}RegisterTypeMigration(\"os\", prevPathErrName, &fs.PathError{})", "R-MIGRATION"},
+	{"C20", "context status returned instead of the handler's error", "grpc/middleware/server.go", `\tst, ok := status\.FromError\(err\)\n`, "\tif ctx.Err() != nil {\n\t\treturn resp, status.New(codes.Canceled, \"canceled\").Err()\n\t}\n\tst, ok := status.FromError(err)\n", "R-GRPC-FLOW"},
+	{"C20", "OK code no longer replaced", "grpc/middleware/server.go", `\t\tif code == codes\.OK \{\n(.*?)\n\t\t\tcode = codes\.Unknown\n\t\t\}\n`, "\t\t_ = codes.OK\n", "R-GRPC-FLOW"},
+	{"C19", "format stored verbatim without arguments", "hintdetail/hintdetail.go", `\treturn &withHint\{cause: err, hint: fmt\.Sprintf\(format, args\.\.\.\)\}`, "\tif len(args) == 0 {\n\t\treturn &withHint{cause: err, hint: format}\n\t}\n\treturn &withHint{cause: err, hint: fmt.Sprintf(format, args...)}", "R-FORMAT-STORED"},
+	{"C01", "barrier decoder ignores the wire message", "barriers/barriers.go", `return &barrierErr\{smsg: redact\.RedactableString\(msg\), maskedErr: errbase\.DecodeError\(ctx, \*enc\)\}`, "masked := errbase.DecodeError(ctx, *enc)\n\treturn &barrierErr{smsg: redact.Sprint(masked), maskedErr: masked}", "R-CODEC"},
+	{"C05", "opaque multi-cause leaf handed to a registered encoder", "errbase/encode.go", `\t\} else if e, ok := err\.\(\*opaqueLeafCauses\); ok \{\n\t\tmsg = e\.msg\n\t\tdetails = e\.details\n`, "", "R-OPAQUE-TRANSPORT"},
+	{"C10", "As looks into branches of the outermost error only", "errutil/as.go", `errbase\.UnwrapMulti\(c\)`, `errbase.UnwrapMulti(err)`, "R-WALK-MULTI"},
 	// round 3
 	{"C08", "type-name keyed memo of the full type name", "errbase/encode.go", `func getFullTypeName\(err error\) string \{\n\tt := reflect\.TypeOf\(err\)\n\tpkgPath := getPkgPath\(t\)\n\treturn makeTypeKey\(pkgPath, t\.String\(\)\)\n\}`, "var fullTypeNamesMemo = map[string]string{}\n\nfunc getFullTypeName(err error) string {\n\tt := reflect.TypeOf(err)\n\tname := t.String()\n\tif v, ok := fullTypeNamesMemo[name]; ok {\n\t\treturn v\n\t}\n\tfull := makeTypeKey(getPkgPath(t), name)\n\tfullTypeNamesMemo[name] = full\n\treturn full\n}", "R-MEMO"},
 	{"C08", "memo keyed by the reflect.Type itself", "errbase/encode.go", `func getFullTypeName\(err error\) string \{\n\tt := reflect\.TypeOf\(err\)\n\tpkgPath := getPkgPath\(t\)\n\treturn makeTypeKey\(pkgPath, t\.String\(\)\)\n\}`, "var fullTypeNamesMemo = map[reflect.Type]string{}\n\nfunc getFullTypeName(err error) string {\n\tt := reflect.TypeOf(err)\n\tif v, ok := fullTypeNamesMemo[t]; ok {\n\t\treturn v\n\t}\n\tfull := makeTypeKey(getPkgPath(t), t.String())\n\tfullTypeNamesMemo[t] = full\n\treturn full\n}", CleanVariant},
